@@ -30,10 +30,10 @@ Definition ratio : Z := Z.quot fs_ap fs_lf.          (* int(self.fs_ap / self.fs
 Definition overlap : Z := 576.                       (* self.samples_overlap *)
 Definition taper : Z := Z.quot overlap 4.            (* int(self.samples_overlap / 4) = 144 *)
 
-(* assert np.mod(samples_window, ratio) == 0  (the two other asserts hold for
-   the constants).  A window not longer than the overlap makes WindowGenerator's
-   stride non-positive (division by zero / endless loop): outside the domain,
-   reported as not admissible. *)
+(* init_params:  assert np.mod(samples_window, ratio) == 0
+                 assert samples_window > samples_overlap          (since /repo 904fe91; before that a window
+                 not longer than the overlap gave WindowGenerator a non-positive stride)
+   (the two other asserts, on samples_overlap and samples_taper, hold for the constants) *)
 Definition admissible (W : Z) : bool := (W mod ratio =? 0) && (overlap <? W).
 
 (* ------------------------------------------------------------------ *)
